@@ -520,7 +520,7 @@ func genHistory(ch *vs.Choices, p *hProj, prop, tier string) []hStep {
 		"C04": {"run", "run", "run", "run-yes", "op:fail", "op:failcall", "op:clearfail", "both", "crash-cmd", "crash-cmd", "crash-fp", "dry", "status", "list-json", "op:edit", "op:touch", "run-force", "op:delgen", "op:prefail"},
 		"C05": {"run", "run", "run", "run-yes", "op:edit", "op:append", "op:touch", "op:add", "op:remove", "op:rename", "op:delgen", "op:status", "run-force", "op:edit-unmatched", "op:fail", "op:clearfail", "op:delgen", "op:delgen", "op:prefail"},
 		"C13": {"run", "run", "run", "run-yes", "both", "dry", "op:prefail", "op:prefail", "op:clearfail", "op:edit", "op:touch", "op:delgen", "op:fail"},
-		"C12": {"run", "run-yes", "dry", "status", "list", "list-all", "list-json", "list-all-json", "list-json-nostatus", "summary", "op:edit", "op:edit", "op:fail", "op:failcall", "op:failcall", "op:clearfail", "op:delgen", "dry", "dry", "status"},
+		"C12": {"run", "run-yes", "dry", "status", "list", "list-all", "list-json", "list-all-json", "list-json-nostatus", "summary", "op:edit", "op:edit", "op:fail", "op:failcall", "op:failcall", "op:clearfail", "op:delgen", "dry", "dry", "status", "dry-force", "dry-force"},
 	}[prop]
 	advs := []time.Duration{time.Second, time.Second, 2 * time.Second, time.Minute, time.Hour, 48 * time.Hour, 20 * time.Millisecond, 300 * time.Millisecond}
 	// histories dwell on a task: a step concerns the task of the previous step two times out of three, and half
@@ -610,6 +610,8 @@ func (s hStep) argv0(p *hProj, dir string) []string {
 		a = append(a, "--yes", "both-"+t.ID)
 	case "dry":
 		a = append(a, "--dry", t.Name)
+	case "dry-force":
+		a = append(a, "--dry", "--force", "--yes", t.Name)
 	case "status":
 		a = append(a, "--status", t.Name)
 	case "list":
@@ -630,7 +632,7 @@ func (s hStep) argv0(p *hProj, dir string) []string {
 
 func isQuery(kind string) bool {
 	switch kind {
-	case "dry", "status", "list", "list-all", "list-json", "list-all-json", "list-json-nostatus", "summary":
+	case "dry", "dry-force", "status", "list", "list-all", "list-json", "list-all-json", "list-json-nostatus", "summary":
 		return true
 	}
 	return false
